@@ -28,6 +28,13 @@ package p2c
 //@   ensures [success-range] 0 <= c.success && c.success <= 1000
 //@   ensures [success-up] ok ==> c.success >= old(c.success)
 //@   ensures [success-down] !ok ==> c.success <= old(c.success)
+// whenever time has passed since the previous completion (decay weight w < 1) the score really moves: an
+// acceptable completion raises it while it is below 1000, an unacceptable one lowers it while it is above 0 - so a
+// recovered backend regains its score and a failing one loses it, however dense the traffic
+// (stepping stone for the solver: the weighted mean of the old score and 1000 lies strictly above the old score)
+//@   ensures [mean-above-old-score] old(c.success) < 1000 && ret(math.Exp) < 1.0 ==> real(old(c.success)) * ret(math.Exp) + 1000.0 * (1.0 - ret(math.Exp)) > real(old(c.success))
+//@   ensures [acceptable-really-moves-up] ok && old(c.success) < 1000 && ret(math.Exp) < 1.0 ==> c.success > old(c.success)
+//@   ensures [unacceptable-really-moves-down] !ok && old(c.success) > 0 && ret(math.Exp) < 1.0 ==> c.success < old(c.success)
 // an unacceptable completion that arrives later than the previous one strictly lowers a positive score
 // (so an all-failing backend reaches the unhealthy range after a bounded number of spaced completions)
 //@   ensures [success-strictly-down] !ok && ret(timex.Now) > old(c.last) && old(c.success) > 0 && old(c.lag) > 0 ==> c.success < old(c.success)
